@@ -469,6 +469,19 @@ def net_prim(ctx: Ctx):
                     if isinstance(b, ast.BinOp) and isinstance(b.op, (ast.Sub, ast.Div, ast.FloorDiv, ast.Pow, ast.LShift, ast.RShift, ast.BitAnd, ast.BitOr, ast.BitXor, ast.MatMult)) \
                             and (_texty(b.left) or _texty(b.right)):
                         out.append(typeerror)
+        if isinstance(node, ast.Call) and (call_chain(node) or ("",))[-1] in ("unpack", "unpack_from", "iter_unpack") and fn.module.name in (
+                "goodwe", "goodwe.inverter", "goodwe.et", "goodwe.es", "goodwe.dt"):
+            # struct.unpack* of a received payload in the inverter classes (device info, discovery): the peer chooses the
+            # length of a checksum-valid answer, a short one raises struct.error (not an InverterError) - unless the length was tested
+            a0 = node.args[1] if len(node.args) > 1 else None
+            guarded = False
+            if a0 is not None:
+                for t in ast.walk(fn.node):
+                    if isinstance(t, ast.Compare) and any(isinstance(x, ast.Call) and norm(x.func) == "len" and x.args and norm(x.args[0]) == norm(a0) for x in ast.walk(t)) \
+                            and getattr(t, "lineno", 0) <= getattr(node, "lineno", 0):
+                        guarded = True
+            if not guarded:
+                out.append(prog.ext_class("struct.error"))
         if isinstance(node, ast.Await):
             v = node.value
             c = chain(v)
@@ -481,6 +494,9 @@ def net_prim(ctx: Ctx):
                     out.append(oserror)
                 if cc and cc[-1] == "wait_for":
                     out.append(timeout)
+            # async with asyncio.timeout(...): every suspension inside the block can be ended by the deadline
+            if node in timeout_scoped_awaits(fn):
+                out.append(timeout)
         elif isinstance(node, ast.Call):
             cc = call_chain(node) or ()
             last = cc[-1] if cc else ""
@@ -509,6 +525,33 @@ def net_prim(ctx: Ctx):
                     out.append(indexerror)
         return out
     return prim
+
+
+def timeout_scope_of(w: ast.AST) -> Optional[ast.Call]:
+    """The asyncio.timeout(...) / timeout_at(...) call of an ``async with`` statement, or None."""
+    if not isinstance(w, ast.AsyncWith):
+        return None
+    for it in w.items:
+        c = it.context_expr
+        cc = call_chain(c) if isinstance(c, ast.Call) else None
+        if cc and cc[-1] in ("timeout", "timeout_at") and (len(cc) == 1 or cc[0] in ("asyncio", "async_timeout")):
+            return c
+    return None
+
+
+def timeout_scoped_awaits(fn: FuncInfo) -> set:
+    """The await expressions of fn that lie inside an ``async with asyncio.timeout(...)`` block."""
+    got = getattr(fn.node, "_gw_timeout_scoped", None)      # kept on the node itself: ids are reused between programs
+    if got is None:
+        got = set()
+        for w in ast.walk(fn.node):
+            if timeout_scope_of(w) is not None:
+                for b in w.body:
+                    for x in ast.walk(b):
+                        if isinstance(x, ast.Await):
+                            got.add(x)
+        fn.node._gw_timeout_scoped = got
+    return got
 
 
 def net_mayraise(ctx: Ctx) -> MayRaise:
